@@ -56,6 +56,19 @@ func (m *Mutex) Unlock() {
 	})
 }
 
+// TryLock: one gate; takes the mutex if it is free at that moment.
+func (m *Mutex) TryLock() (ok bool) {
+	if vsched.Free {
+		return m.real.TryLock()
+	}
+	vsched.Gate("mu.trylock", nil, func() {
+		if !m.held {
+			m.held, ok = true, true
+		}
+	})
+	return
+}
+
 // Held is for players' state projections.
 func (m *Mutex) Held() bool { return m.held }
 
